@@ -22,7 +22,7 @@ const KINDS: [&str; 5] = ["bdd", "bcdd", "zbdd", "mtbdd", "tdd"];
 
 pub fn shards(tier: &str) -> Vec<String> {
     let mut v = super::allops::shards(tier);
-    v.extend(hist::shards_for(&["mtbddf", "mtbddc"], &["n64c16t1"], if tier == "thorough" { 2 } else { 1 }));
+    v.extend(hist::shards_for(&["mtbddf", "mtbddc", "zbdds"], &["n64c16t1"], if tier == "thorough" { 2 } else { 1 }));
     if tier == "thorough" {
         v.extend(hist::shards_for(&KINDS, &["n64c16t1", "n12c16t1", "n64c1t2"], 2));
     } else {
